@@ -41,6 +41,7 @@ class SecureGateway(SimGateway):
         self.sessions: dict[int, Session] = {}     # by tcp conn id
         self.next_sid = 1
         self.lowest_free_sid = False
+        self.session_script: list[dict[str, Any]] = []     # scripted behaviour per SessionRequest
         self.bad_dev_mac = False                   # scripted: SessionResponse with a wrong device-authentication MAC
         self.auth_result = ST_AUTH_SUCCESS
         self.auth_results: list[int] = []          # scripted status codes of the next authentications
@@ -96,6 +97,16 @@ class SecureGateway(SimGateway):
         if svc == W.SESSION_REQ:
             if not first:
                 self.violations.append(("C29.never-plain", "second-plain-session-request", "SESSION_REQUEST not first frame"))
+            b = self.session_script.pop(0) if self.session_script else None
+            if b and b.get("k") == "close":
+                # the connection dies while the client waits for the SessionResponse
+                self.fired["session:close"] += 1
+
+                def close(conn=conn):
+                    conn.server_close(None)
+                    self.on_close(conn)
+                self.loop.after(b.get("d", 0.3), close, label="gw_close")
+                return
             body = fr[6:]
             if len(body) != 8 + 32:
                 return
